@@ -232,6 +232,9 @@ func c20CtorCase(c *Ctx, r *Rng) {
 			return
 		}
 		plain = c20Res(f64List(res), err, "err")
+		for i := range res { // the caller owns what it was given: it goes on to use the slice (here: rescales it in place) before asking again
+			res[i] = res[i]*1000 + 1
+		}
 		var ok bool
 		mustTok, ok = mustOutcome(func() string {
 			if kind == "lv" {
@@ -258,6 +261,9 @@ func c20CtorCase(c *Ctx, r *Rng) {
 			return
 		}
 		plain = c20Res(i64List(dursToI64(res)), err, "err")
+		for i := range res { // the caller owns what it was given (see above)
+			res[i] = res[i]*1000 + 1
+		}
 		var ok bool
 		mustTok, ok = mustOutcome(func() string {
 			return i64List(dursToI64(tally.MustMakeLinearDurationBuckets(time.Duration(a), time.Duration(b), n)))
@@ -296,6 +302,9 @@ func c20CtorCase(c *Ctx, r *Rng) {
 			return
 		}
 		plain = c20Res(i64List(dursToI64(res)), err, "err")
+		for i := range res { // the caller owns what it was given (see above)
+			res[i] = res[i]*1000 + 1
+		}
 		var ok bool
 		mustTok, ok = mustOutcome(func() string {
 			return i64List(dursToI64(tally.MustMakeExponentialDurationBuckets(time.Duration(a), b, n)))
@@ -939,6 +948,134 @@ func c20SeqHistory(c *Ctx, r *Rng, hno int) {
 	c.Cov.Traces++
 }
 
+// one sequential history under a root with a PLAIN reporter: the reporter is handed the histogram's specification
+// with every bucket it is told about (an M3 or Prometheus reporter derives ids and bounds from it), long after the
+// creation - after further creations from the same, reused caller slice and after the caller has scribbled over it.
+// Oracle (model-independent): with every reported bucket the specification handed over is, as a sorted list of
+// values, the specification the histogram was created with, and the bucket's upper bound is one of them (or the
+// open end).
+func c20SpecHistory(c *Ctx, r *Rng, hno int) {
+	var pool []c20Spec
+	for i := r.Range(1, 3); i > 0; i-- {
+		pool = append(pool, c20Family(c, r)...)
+	}
+	rp := newRec()
+	root, closer := tally.VerifNewRootScope(tally.ScopeOptions{Reporter: rp, OmitCardinalityMetrics: true}, 0, uint(r.Range(1, 4)))
+	defer closer.Close()
+	type made struct {
+		s    c20Spec
+		name string
+		h    tally.Histogram
+		hit  bool
+	}
+	var all []made
+	first := map[uint64]bool{}
+	scratchD := make(tally.DurationBuckets, 0, 64)
+	scratchV := make(tally.ValueBuckets, 0, 64)
+	var trace []string
+	steps := r.Range(3, 16)
+	for i := 0; i < steps; i++ {
+		s := pool[r.Intn(len(pool))]
+		if len(s.bits) > 64 {
+			continue
+		}
+		name := fmt.Sprintf("p%d_%d", hno, i)
+		b := s.buckets()
+		reuse := r.Chance(70)
+		if reuse {
+			switch x := b.(type) {
+			case tally.DurationBuckets:
+				scratchD = append(scratchD[:0], x...)
+				b = scratchD
+			case tally.ValueBuckets:
+				scratchV = append(scratchV[:0], x...)
+				b = scratchV
+			}
+		}
+		var h tally.Histogram
+		p, v := catch(func() { h = c20Scope(root, r.Intn(8)).Histogram(name, b) })
+		trace = append(trace, fmt.Sprintf("create %s %c %s reused-slice=%v", name, s.kind, s.tok(), reuse))
+		if p {
+			c.Cov.Fail(Failure{Kind: "crash", Clause: "no-panic", Signature: "c20spec-panic", Line: strings.Join(trace, " | "), Detail: fmt.Sprint(v)})
+			return
+		}
+		all = append(all, made{s, name, h, first[s.ident()]})
+		first[s.ident()] = true
+	}
+	// the caller goes on using its slices
+	scratchD = scratchD[:cap(scratchD)]
+	for i := range scratchD {
+		scratchD[i] = time.Duration(777+i) * time.Hour
+	}
+	scratchV = scratchV[:cap(scratchV)]
+	for i := range scratchV {
+		scratchV[i] = 7.77e77 + float64(i)
+	}
+	trace = append(trace, "the caller overwrites its slices")
+	sortedVals := func(kind byte, bits []uint64) string {
+		fs := make([]float64, len(bits))
+		for i, b := range bits {
+			if kind == 'd' {
+				fs[i] = float64(int64(b))
+			} else {
+				fs[i] = math.Float64frombits(b)
+			}
+			if fs[i] == 0 {
+				fs[i] = 0 // the two zeros are one bound (sets that differ only in the sign of a zero share storage on the pinned tree; 10.5, tenth round)
+			}
+		}
+		sort.Float64s(fs)
+		return fmt.Sprint(fs)
+	}
+	nontrivial := false
+	for _, m := range all {
+		rp.log.Take()
+		line := strings.Join(trace, " | ") + " | one sample on every bound of " + m.name + " | pass"
+		c20Record(c, "c20spec", line, m.h, m.s)
+		tally.VerifReportOnce(root)
+		want := sortedVals(m.s.kind, m.s.bits)
+		seen := 0
+		for _, e := range rp.log.Take() {
+			if (e.Kind != "hval" && e.Kind != "hdur") || !(e.Name == m.name || strings.HasSuffix(e.Name, "."+m.name)) {
+				continue
+			}
+			seen++
+			got := "?"
+			if len(e.Spec) >= 2 && e.Spec[1] == ':' {
+				var bits []uint64
+				if e.Spec[2:] != "" {
+					for _, t := range strings.Split(e.Spec[2:], ",") {
+						if e.Spec[0] == 'd' {
+							n, _ := strconv.ParseInt(t, 10, 64)
+							bits = append(bits, uint64(n))
+						} else {
+							n, _ := strconv.ParseUint(t, 16, 64)
+							bits = append(bits, n)
+						}
+					}
+				}
+				got = sortedVals(e.Spec[0], bits)
+			}
+			if e.Spec[:1] != string(m.s.kind) || got != want {
+				c.Cov.Fail(Failure{Kind: "violated", Clause: "bounds-kept", Signature: "histogram-specification-at-report-time", Line: line,
+					Reply: fmt.Sprintf("%s was created with %c %s; the reporter is handed the specification %s with bucket (%v, %v]", m.name, m.s.kind, want, e.Spec, e.LoF+float64(e.LoD), e.HiF+float64(e.HiD))})
+				break
+			}
+		}
+		if seen == 0 {
+			c.Cov.Fail(Failure{Kind: "violated", Clause: "bounds-used-for-placement", Signature: "c20spec-nothing-delivered", Line: line, Reply: "no bucket of " + m.name + " reached the reporter"})
+		}
+		if m.hit {
+			nontrivial = true
+		}
+		c.Cov.Eval("spec "+m.s.key()+fmt.Sprint(m.hit), m.hit)
+	}
+	if nontrivial {
+		c.Cov.Hit("spec-history.with-collision")
+	}
+	c.Cov.Traces++
+}
+
 // c20Barrier is a spinning barrier: all goroutines leave within a few nanoseconds of each other,
 // which is what makes several of them probe the cache before any of them has stored.
 type c20Barrier struct {
@@ -1075,10 +1212,13 @@ func c20ParHistory(c *Ctx, r *Rng, hno int) {
 }
 
 func suiteC20Cache(c *Ctx) {
-	c.Cov.Rule = "(b) histories of histogram creations under ONE root (root, subscopes, tagged scopes share the bucket cache), bucket sets drawn from families that collide by construction under seed 23 / fold 31: permutations of one set, equal sums of bit patterns ({1,4} vs {2,3}, different lengths), a value set and a duration set with the same identity, sets differing only in the sign of zeros, empty sets of both kinds, identical sets plus an intruder, large sets; sequential histories (cache model threaded by the driver, hit/miss classification cross-checked) and 8-goroutine histories (all goroutines released together per round on one family; free-running schedules); per created histogram the bounds it uses are observed twice: the ValueBucket/DurationBucket calls on the cached reporter at creation, and where one sample per bound lands; both must be the sorted creating spec ++ [max]; the caller's slice is compared before/after Histogram(); nontrivial when the creating spec's identity is shared with another spec of the history (sequential: created earlier); distinct by (mode, spec, colliding partner)"
+	c.Cov.Rule = "(b) histories of histogram creations under ONE root (root, subscopes, tagged scopes share the bucket cache), bucket sets drawn from families that collide by construction under seed 23 / fold 31: permutations of one set, equal sums of bit patterns ({1,4} vs {2,3}, different lengths), a value set and a duration set with the same identity, sets differing only in the sign of zeros, empty sets of both kinds, identical sets plus an intruder, large sets; sequential histories (cache model threaded by the driver, hit/miss classification cross-checked) and 8-goroutine histories (all goroutines released together per round on one family; free-running schedules); per created histogram the bounds it uses are observed twice: the ValueBucket/DurationBucket calls on the cached reporter at creation, and where one sample per bound lands; both must be the sorted creating spec ++ [max]; the caller's slice is compared before/after Histogram(); histories under a root with a PLAIN reporter: after all creations (70% from one reused caller slice) and after the caller has overwritten its slices, one sample per bound and a pass per histogram - the specification handed to the reporter with every bucket must be the creating one; nontrivial when the creating spec's identity is shared with another spec of the history (sequential: created earlier); distinct by (mode, spec, colliding partner)"
 	n := c.N(120, 2500)
 	for i := 0; i < n; i++ {
 		c20SeqHistory(c, c.Rng.Fork(), i)
+	}
+	for i := 0; i < c.N(60, 1200); i++ {
+		c20SpecHistory(c, c.Rng.Fork(), i)
 	}
 	m := c.N(200, 3000)
 	for i := 0; i < m; i++ {
